@@ -150,7 +150,7 @@ def frame_native(seed=0, hints=()):
     return dict(reproduced=False)
 
 
-def units(tier, seed):
+def _units_body(tier, seed):
     classes = common.select_classes(e1.binary_classes(), tier, 'C03')
     out = [k2_unit(c) for c in classes]
     for kind in ('parse_mutable', 'parse_exact_size', 'parse_immutable'):
@@ -161,6 +161,12 @@ def units(tier, seed):
     UNCOVERED[:] = common.uncovered_report(e1.binary_classes(), classes)
     from checks import foundation
     return list(out) + foundation.units(tier, seed)
+
+
+
+def units(tier, seed):
+    from checks import canary
+    return list(_units_body(tier, seed)) + [canary.e1_accepts()]
 
 
 FINDING_REPLAYS = {}
